@@ -381,7 +381,14 @@ pub fn run_threads(args: &Args, mut out: Out) {
             }
         }
         // end of the run: release the cell (a default logger's sender is dropped, its thread drains and ends)
-        sh.guards.lock().unwrap().clear();
+        // (a leftover guard is dropped as one more recorded call: a panic in it is data, not a harness failure)
+        let leftover: Vec<ClearGlobalLoggerOnDrop> = std::mem::take(&mut *sh.guards.lock().unwrap());
+        for g in leftover {
+            let s0 = stamp();
+            let res = catch(move || drop(g));
+            let e0 = stamp();
+            sh.ops.lock().unwrap().push(json!({"t":1,"op":"DropGuard","start":s0,"end":e0,"panic":res.is_err()}));
+        }
         *lock_global_logger() = GlobalLoggerState::None;
         let mut delivered = std::mem::take(&mut *sh.delivered.lock().unwrap());
         for (i, r) in sh.receivers.lock().unwrap().iter().enumerate() {
